@@ -10,7 +10,7 @@
 From Coq Require Import List String Bool Arith.
 From Helm Require Import Common.Assoc Engine.Types Engine.Eff Engine.Ops Engine.Cluster Engine.Seq
   Engine.SeqProofs Engine.HooksProofsGate Engine.ContainLedger Engine.ContainProofs Engine.ContainDeployed
-  Engine.Contain Engine.ContainRefuted Engine.ContainStore Engine.HooksProofsTrace Engine.ContainReported Engine.ContainCleanup.
+  Engine.Contain Engine.ContainRefuted Engine.ContainStore Engine.HooksProofsTrace Engine.ContainReported Engine.ContainCleanup Engine.ContainAtomic.
 Import ListNotations.
 Local Open Scope string_scope.
 
@@ -124,6 +124,32 @@ Theorem C03_cleanup_on_fail :
          forall r, In r created -> amem (rkey r) (w_objs w') = false).
 Proof. exact cleanup_on_fail. Qed.
 Print Assumptions C03_cleanup_on_fail.
+
+(* C03_atomic_install — a failed atomic install of a new release (empty history, none of the
+   manifest's resources in the cluster yet) ends with an EMPTY ledger and NONE of the
+   manifest's resources in the cluster: object-store cluster, any one-shot fault that is not a
+   DELETE fault (that could only hit the recovery itself), no keep annotations, and — known
+   finding K9 — hooks disabled or no pre-/post-delete hooks. *)
+Theorem C03_atomic_install :
+  forall rn ns fl cid vid mani hks cf objs0 w' c t,
+    f_atomic fl = true -> f_dry_run fl = false ->
+    (forall r, In r mani -> manifest_keep r = false) ->
+    (f_no_hooks fl = true \/ (hooks_for PreDelete hks = [] /\ hooks_for PostDelete hks = [])) ->
+    (forall key, cf_k cf <> Some (VDelete, key)) ->
+    (forall r, In r mani -> amem (rkey r) objs0 = false) ->
+    run_store_op rn ns (mkOp (OpInstall fl cid vid mani hks) nofault cf) (mkW [] objs0) = (w', OErr c, t) ->
+    w_led w' = [] /\ forall r, In r mani -> amem (rkey r) (w_objs w') = false.
+Proof. exact atomic_install. Qed.
+Print Assumptions C03_atomic_install.
+
+Example C03_atomic_install_example :
+  f_atomic ai_fl = true /\ f_dry_run ai_fl = false /\
+  (forall r, In r ai_mani -> manifest_keep r = false) /\
+  (forall key, cf_k ai_cf <> Some (VDelete, key)) /\
+  exists w' t, run_store_op "rel" "default" (mkOp (OpInstall ai_fl 1 1 ai_mani []) nofault ai_cf) (mkW [] [])
+               = (w', OErr EOtherErr, t) /\ w_led w' = [] /\ w_objs w' = [].
+Proof. exact atomic_install_example. Qed.
+Print Assumptions C03_atomic_install_example.
 
 (* Known finding K6 — why the atomic clause needs its hypothesis: install {a,b};
    upgrade --atomic to {a'} with PATCH a rejected: the automatic rollback aborts on the
